@@ -154,4 +154,203 @@ theorem ledger_runRes (n0 : Option Nat) (s : RS) (post : List Ev) (r : RS × Lis
     rw [hrl, cntE_append, hev, hlo]
     simpa using d
 
+theorem ledger_congr (n0 : Option Nat) (s s' : RS) (tr : List Obs) (hs : s'.stopped = s.stopped) (hl : s'.loops = s.loops)
+    (h : Ledger n0 s tr) : Ledger n0 s' tr := by
+  unfold Ledger LoopAcc at *
+  rw [hs, hl]; exact h
+
+theorem ledger_nil (n0 : Option Nat) (s s' : RS) (tr : List Obs) (hs : s'.stopped = s.stopped) (hl : s'.loops = s.loops)
+    (h : Ledger n0 s tr) : Ledger n0 s' (tr ++ []) := by
+  rw [List.append_nil]; exact ledger_congr n0 s s' tr hs hl h
+
+/-- `runNext` on any state (stopped or not) keeps the ledger -/
+theorem ledger_runNext (n0 : Option Nat) (s : RS) (post : List Ev) (pa : Bool) (tr : List Obs) (hp : IsAck post)
+    (h : Ledger n0 s tr) : Ledger n0 (runNext s post pa).1 (tr ++ (runNext s post pa).2) := by
+  by_cases hs : s.stopped = true
+  · rw [runNext_stopped s post pa hs]; exact ledger_nil n0 s s tr rfl rfl h
+  · exact ledger_runRes n0 s post _ tr h (by simpa using hs) hp (runNext_out s post pa (by simpa using hs))
+
+theorem step_ledger (n0 : Option Nat) (s : RS) (o : Op) (tr : List Obs) (hp : o.isPlay = false)
+    (h : Ledger n0 s tr) : Ledger n0 (step s o).1 (tr ++ (step s o).2) := by
+  cases o with
+  | play durs num den loops start running manual t => simp [Op.isPlay] at hp
+  | stop t =>
+    simp only [step, ctl]
+    split
+    · by_cases hs : s.stopped = true
+      · have : stop (setNow s t) = (setNow s t, []) := by unfold stop; simp [setNow, hs]
+        rw [this]; exact ledger_nil n0 s _ tr rfl rfl h
+      · have hs' : (setNow s t).stopped = false := by simpa [setNow] using hs
+        have f := stop_facts (setNow s t) hs'
+        obtain ⟨a, b, c, d⟩ := h
+        have hb : cntE .stopped tr = 0 := by rw [b]; simp [hs]
+        have hout : ∀ e, cntE e (stop (setNow s t)).2 = if e = Ev.stopped then 1 else 0 := by
+          intro e; rw [f.2.2, cntE_append]
+          have h1 : cntE e (if (setNow s t).dirty = true then [Obs.clr] else []) = 0 := by split <;> simp [cntE]
+          rw [h1]; by_cases he : e = Ev.stopped <;> simp [cntE, he, eq_comm]
+        refine ⟨by rw [cntE_append, a, hout]; simp, by rw [cntE_append, hb, hout]; simp [f.1],
+          by rw [cntE_append, cntE_append, hout, hout]; simp; omega, ?_⟩
+        unfold LoopAcc at d ⊢
+        dsimp only
+        rw [f.2.1, cntE_append, hout]
+        simpa [setNow] using d
+    · exact ledger_nil n0 s _ tr rfl rfl h
+  | pause t =>
+    simp only [step, ctl]
+    split
+    · have h' : Ledger n0 (cancelHandle (setNow s t)) tr :=
+        ledger_congr n0 s _ tr (by rw [cancel_stopped]; rfl) (by rw [cancel_loops]; rfl) h
+      obtain ⟨a, b, c, d⟩ := h'
+      refine ⟨by rw [cntE_append, a]; simp [cntE], by rw [cntE_append, b]; simp [cntE],
+        by rw [cntE_append, cntE_append]; simp [cntE]; exact c, ?_⟩
+      unfold LoopAcc at d ⊢
+      rw [cntE_append]; simpa [cntE] using d
+    · exact ledger_nil n0 s _ tr rfl rfl h
+  | resume t =>
+    simp only [step, ctl]
+    split
+    · apply ledger_runNext n0 _ _ _ tr (by unfold IsAck; decide)
+      exact ledger_congr n0 s _ tr (by show (cancelHandle (setNow s t)).stopped = _; rw [cancel_stopped]; rfl)
+        (by show (cancelHandle (setNow s t)).loops = _; rw [cancel_loops]; rfl) h
+    · exact ledger_nil n0 s _ tr rfl rfl h
+  | advance t =>
+    simp only [step, ctl]
+    split
+    · apply ledger_runNext n0 _ _ _ tr (by unfold IsAck; decide)
+      exact ledger_congr n0 s _ tr (by show (cancelHandle (setNow s t)).stopped = _; rw [cancel_stopped]; rfl)
+        (by show (cancelHandle (setNow s t)).loops = _; rw [cancel_loops]; rfl) h
+    · exact ledger_nil n0 s _ tr rfl rfl h
+  | back t =>
+    simp only [step, ctl]
+    split
+    · apply ledger_runNext n0 _ _ _ tr (by unfold IsAck; decide)
+      exact ledger_congr n0 s _ tr (by show (cancelHandle (setNow s t)).stopped = _; rw [cancel_stopped]; rfl)
+        (by show (cancelHandle (setNow s t)).loops = _; rw [cancel_loops]; rfl) h
+    · exact ledger_nil n0 s _ tr rfl rfl h
+  | speed num den t =>
+    simp only [step, ctl]
+    split
+    · exact ledger_nil n0 s _ tr rfl rfl h
+    · exact ledger_nil n0 s _ tr rfl rfl h
+  | fire t =>
+    simp only [step]
+    split
+    · exact ledger_nil n0 s _ tr rfl rfl h
+    · apply ledger_runNext n0 _ _ _ tr (by unfold IsAck; decide)
+      exact ledger_congr n0 s _ tr rfl rfl h
+
+theorem run_ledger (n0 : Option Nat) (ops : List Op) : ∀ (s : RS) (tr : List Obs), (∀ o ∈ ops, o.isPlay = false) →
+    Ledger n0 s tr → Ledger n0 (run s ops).1 (tr ++ (run s ops).2) := by
+  induction ops with
+  | nil => intro s tr _ h; simpa [run] using h
+  | cons o r ih =>
+    intro s tr hp h
+    simp only [run]
+    rw [← List.append_assoc]
+    exact ih _ _ (fun x hx => hp x (List.mem_cons_of_mem _ hx)) (step_ledger n0 s o tr (hp o List.mem_cons_self) h)
+
+/-- the first `_run_next_step` of a fresh instance opens the ledger -/
+theorem first_ledger (s0 : RS) (pa : Bool) (hs : s0.stopped = false) :
+    Ledger s0.loops (runNext s0 [.played] pa).1 (runNext s0 [.played] pa).2 := by
+  have hr := runNext_out s0 [.played] pa hs
+  generalize runNext s0 [.played] pa = r at hr
+  rcases hr with ⟨hrs, i, t, lp, hout, hlp⟩ | ⟨hrs, hrl, hl0, hout⟩
+  · have hev : ∀ e, cntE e r.2 = [Ev.played].count e + lp.count e := by
+      intro e; rw [hout]; simp only [cntE]; rw [cntE_evs, List.count_append]
+    rcases hlp with ⟨rfl, hl⟩ | ⟨rfl, hl⟩
+    · refine ⟨by rw [hev]; decide, by rw [hev, hrs]; decide, by rw [hev, hev]; decide, ?_⟩
+      unfold LoopAcc
+      rw [hl, hev]
+      cases s0.loops <;> simp
+    · refine ⟨by rw [hev]; decide, by rw [hev, hrs]; decide, by rw [hev, hev]; decide, ?_⟩
+      unfold LoopAcc
+      rw [hev]
+      rcases hl with ⟨h1, h2⟩ | ⟨n, h1, h2⟩
+      · rw [h1, h2]; trivial
+      · rw [h1, h2]; simp; omega
+  · have hev : ∀ e, cntE e r.2 = (if e = Ev.stopped then 1 else 0) + ([Ev.played].count e + (if e = Ev.completed then 1 else 0)) := by
+      intro e
+      rw [hout, cntE_append, cntE_append, cntE_evs, List.count_append]
+      have h1 : cntE e (if s0.dirty = true then [Obs.clr] else []) = 0 := by split <;> simp [cntE]
+      rw [h1]
+      by_cases he1 : e = Ev.stopped <;> by_cases he2 : e = Ev.completed <;>
+        simp [cntE, he1, he2, eq_comm]
+    refine ⟨by rw [hev]; decide, by rw [hev, hrs]; decide, by rw [hev, hev]; decide, ?_⟩
+    unfold LoopAcc
+    rw [hrl, hev, hl0]
+    decide
+
+/-- the play request on a key without a running show opens the ledger -/
+theorem play_ledger (durs : List Nat) (num den : Nat) (loops : Option Nat) (start : Nat) (running manual : Bool) (t : Nat) :
+    Ledger loops (step {} (.play durs num den loops start running manual t)).1
+      (step {} (.play durs num den loops start running manual t)).2 := by
+  simp only [step]
+  have hstop : stop (setNow ({} : RS) t) = (setNow {} t, []) := by unfold stop; simp [setNow]
+  rw [hstop]
+  simp only [List.nil_append]
+  exact first_ledger _ _ rfl
+
+/-- shape of the output of the step that stops a show -/
+def StopShape (out : List Obs) : Prop :=
+  ∃ pre post, out = pre ++ Obs.ev .stopped :: post ∧ (∀ x ∈ pre, x = Obs.clr) ∧
+    (post = [] ∨ ∃ acks, post = acks.map Obs.ev ++ [Obs.ev .completed] ∧ IsAck acks)
+
+theorem runRes_stop_shape (s : RS) (post : List Ev) (r : RS × List Obs) (hp : IsAck post) (hr : RunRes s post r)
+    (h : r.1.stopped = true) : StopShape r.2 := by
+  rcases hr with ⟨hrs, _⟩ | ⟨_, _, _, hout⟩
+  · rw [hrs] at h; simp at h
+  · refine ⟨if s.dirty then [Obs.clr] else [], (post ++ [Ev.completed]).map Obs.ev, by rw [hout]; simp, ?_,
+      Or.inr ⟨post, by simp, hp⟩⟩
+    intro x hx; split at hx <;> simp at hx; exact hx
+
+theorem step_stop_shape (s : RS) (o : Op) (hp : o.isPlay = false) (hs : s.stopped = false)
+    (h : (step s o).1.stopped = true) : StopShape (step s o).2 := by
+  have hrn : ∀ (s' : RS) (post : List Ev), s'.stopped = false → IsAck post →
+      (runNext s' post false).1.stopped = true → StopShape (runNext s' post false).2 :=
+    fun s' post hs' hpost hh => runRes_stop_shape s' post _ hpost (runNext_out s' post false hs') hh
+  cases o with
+  | play durs num den loops start running manual t => simp [Op.isPlay] at hp
+  | stop t =>
+    simp only [step, ctl] at h ⊢
+    split
+    · have f := stop_facts (setNow s t) (by simpa [setNow] using hs)
+      refine ⟨if (setNow s t).dirty then [Obs.clr] else [], [], by rw [f.2.2], ?_, Or.inl rfl⟩
+      intro x hx; split at hx <;> simp at hx; exact hx
+    · rename_i hk; rw [if_neg hk] at h; simp [setNow, hs] at h
+  | pause t =>
+    simp only [step, ctl] at h ⊢
+    split at h
+    · rw [cancel_stopped] at h; simp [setNow, hs] at h
+    · simp [setNow, hs] at h
+  | resume t =>
+    simp only [step, ctl] at h ⊢
+    split
+    · rename_i hk; rw [if_pos hk] at h
+      exact hrn _ _ (by show (cancelHandle (setNow s t)).stopped = false; rw [cancel_stopped]; simpa [setNow] using hs)
+        (by unfold IsAck; decide) h
+    · rename_i hk; rw [if_neg hk] at h; simp [setNow, hs] at h
+  | advance t =>
+    simp only [step, ctl] at h ⊢
+    split
+    · rename_i hk; rw [if_pos hk] at h
+      exact hrn _ _ (by show (cancelHandle (setNow s t)).stopped = false; rw [cancel_stopped]; simpa [setNow] using hs)
+        (by unfold IsAck; decide) h
+    · rename_i hk; rw [if_neg hk] at h; simp [setNow, hs] at h
+  | back t =>
+    simp only [step, ctl] at h ⊢
+    split
+    · rename_i hk; rw [if_pos hk] at h
+      exact hrn _ _ (by show (cancelHandle (setNow s t)).stopped = false; rw [cancel_stopped]; simpa [setNow] using hs)
+        (by unfold IsAck; decide) h
+    · rename_i hk; rw [if_neg hk] at h; simp [setNow, hs] at h
+  | speed num den t =>
+    simp only [step, ctl] at h
+    split at h <;> simp [setNow, hs] at h
+  | fire t =>
+    simp only [step] at h ⊢
+    split
+    · rename_i hd; rw [hd] at h; simp [setNow, hs] at h
+    · rename_i tm hd; rw [hd] at h
+      exact hrn _ _ (by simpa [setNow] using hs) (by unfold IsAck; decide) h
+
 end MpfVerif.Show
